@@ -1,3 +1,4 @@
 # sourced by every script: offline Go environment
 export GOFLAGS=-mod=mod GOPROXY=off GOSUMDB=off GOTOOLCHAIN=local
+export VERIF_REPO="${VERIF_REPO:-/repo}"
 export VERIF_ROOT="${VERIF_ROOT:-$(cd "$(dirname "${BASH_SOURCE[0]}")/.." && pwd)}"
